@@ -372,10 +372,14 @@ fn run_script(acts: Vec<Act>, kk: u64, tt: u64, ctmo: u64, parts0: &[(Vec<(u64, 
     let (mut commits, mut aborts) = (0, 0);
     for a in acts {
         let e = match a {
+            Act::Ev(Ev::Drop(i)) | Act::Ev(Ev::Deliver(i, _)) if i as usize >= w.net.len() => continue,
             Act::Ev(e) => e,
             Act::Deliver(kind, t, s, keep) => {
-                let i = w.net.iter().position(|m| m.kind() == (kind, t, s)).expect("scripted message in flight");
-                Ev::Deliver(i as u64, keep)
+                // on a tree that behaves differently the scripted message may not exist: skip the step, never panic
+                match w.net.iter().position(|m| m.kind() == (kind, t, s)) {
+                    Some(i) => Ev::Deliver(i as u64, keep),
+                    None => continue,
+                }
             }
         };
         let ret = w.apply(&e, dist);
@@ -442,7 +446,18 @@ fn run_random(r: &mut Rng, dist: &mut Dist) -> Outcome {
             // stray vote from a shard that is not a participant of the transaction
             let t = r.range(1, nb);
             let outsiders: Vec<u64> = (0..np + 1).filter(|s| !w.parts[t as usize - 1].contains(s)).collect();
-            Ev::Stray(t, *r.pick(&outsiders), r.chance(3, 4))
+            // participants whose vote the coordinator has already recorded: a stale / re-sent vote with
+            // (possibly) different content is a duplicate for them
+            let voted: Vec<u64> = w
+                .c
+                .get(w.real(t))
+                .map(|tx| w.parts[t as usize - 1].iter().copied().filter(|s| tx.votes.contains_key(&(*s as usize))).collect())
+                .unwrap_or_default();
+            if !voted.is_empty() && r.chance(1, 2) {
+                Ev::Stray(t, *r.pick(&voted), r.chance(3, 4))
+            } else {
+                Ev::Stray(t, *r.pick(&outsiders), r.chance(3, 4))
+            }
         } else {
             Ev::Advance(*r.pick(&[1u64, 10, 21, 51, 101, 5001]))
         };
@@ -602,6 +617,49 @@ fn main() {
         ];
         let o = run_script(acts, 2, 1, 100000, &parts0, &mut dist);
         sched.push(&o.term, "corpus late commit: shard 1 applies in time, shard 0 gets the commit 51 ms later, after its 50 ms key locks expired", true);
+    }
+
+    {
+        // shard 0 answers Conflict (another tx holds k0); a re-sent vote for shard 0 with DIFFERENT content (Yes) arrives while
+        // the tx is still Preparing and must stay rejected as a duplicate; shard 1 votes Yes -> the decision must be abort
+        let parts0 = vec![(vec![(0u64, 1u64)], 30000u64), (vec![], 30000u64)];
+        let acts = vec![
+            Act::Ev(Ev::Begin(vec![0], vec![(0, put(0, 5))], false)),
+            Act::Deliver("prepare", 1, 0, false),
+            Act::Ev(Ev::Begin(vec![0, 1], vec![(0, put(0, 7)), (1, put(1, 8))], false)),
+            Act::Deliver("prepare", 2, 0, false),
+            Act::Deliver("vote", 2, 0, false),
+            Act::Ev(Ev::Stray(2, 0, true)),
+            Act::Deliver("prepare", 2, 1, false),
+            Act::Deliver("vote", 2, 1, false),
+            Act::Ev(Ev::Commit(2)),
+            Act::Ev(Ev::TakeAborts),
+            Act::Ev(Ev::Abort(2)),
+            Act::Deliver("abort", 2, 0, false),
+            Act::Deliver("abort", 2, 1, false),
+            Act::Ev(Ev::Stray(2, 1, false)),
+        ];
+        let o = run_script(acts, 2, 2, 100000, &parts0, &mut dist);
+        sched.push(&o.term, "corpus differing duplicate vote: shard 0 votes Conflict; a duplicate Yes for shard 0 is rejected; shard 1 votes Yes; commit must be refused and the abort broadcast must follow", true);
+    }
+    {
+        // the other direction: shard 0 voted Yes, a differing duplicate (Conflict) must not turn the decision into abort... nor back
+        let parts0 = vec![(vec![(0u64, 1u64)], 30000u64), (vec![], 30000u64)];
+        let acts = vec![
+            Act::Ev(Ev::Begin(vec![0, 1], vec![(0, put(0, 7)), (1, put(1, 8))], false)),
+            Act::Deliver("prepare", 1, 0, false),
+            Act::Deliver("vote", 1, 0, false),
+            Act::Ev(Ev::Stray(1, 0, false)),
+            Act::Ev(Ev::Stray(1, 0, true)),
+            Act::Deliver("prepare", 1, 1, false),
+            Act::Deliver("vote", 1, 1, false),
+            Act::Ev(Ev::Stray(1, 1, false)),
+            Act::Ev(Ev::Commit(1)),
+            Act::Deliver("commit", 1, 0, false),
+            Act::Deliver("commit", 1, 1, false),
+        ];
+        let o = run_script(acts, 2, 1, 100000, &parts0, &mut dist);
+        sched.push(&o.term, "corpus differing duplicate votes after a Yes: rejected before and after the tx became Prepared; commit applies on both shards", true);
     }
 
     for _ in 0..args.budget(700, 30000) {
